@@ -238,13 +238,15 @@ def pe_spec(p, st):
     for k in range(K):
         acc = acc + full[k] * th[k]; cum.append(acc)
     tot = cum[-1]
-    sdot = [tot * float(p['b'][r + 1]) - cum[r] for r in range(K - 1)]     # sigma_dot at the internal boundaries
+    sig = np.cumsum(th)                      # sigma of the lower boundaries, measured from the first boundary (accepted level sets
+                                             # may start at a value only close to 0)
+    sdot = [tot * float(sig[r]) - cum[r] for r in range(K - 1)]     # sigma_dot at the internal boundaries
     upwind = p.get('vadv', 'centered') in ('upwind', 'none')     # vertical advection terms supplied at the nodes by the caller
     # the two halves of sigma_dot (semi-implicit split): from u.grad(lnps) and from the divergence
     cumG = []; acc = Fn.const(0.0)
     for k in range(K):
         acc = acc + G[k] * th[k]; cumG.append(acc)
-    sdotG = [cumG[-1] * float(p['b'][r + 1]) - cumG[r] for r in range(K - 1)]
+    sdotG = [cumG[-1] * float(sig[r]) - cumG[r] for r in range(K - 1)]
     sdotD = [sdot[r] - sdotG[r] for r in range(K - 1)]
     zero_col = [Fn.const(0.0)] * K
     eps = p['Rv'] / R - 1.0
@@ -338,7 +340,8 @@ GRIDS = {'g9': dict(M=8, L=9, I=25, J=13), 'g7': dict(M=6, L=7, I=19, J=10), 'g1
          'g9o': dict(M=8, L=9, I=25, J=13, offset=0.3),                             # longitude offset
          'gm6': dict(M=6, L=9, I=25, J=13),                                         # total_wavenumbers > longitude_wavenumbers + 1
          'gw': dict(M=8, L=9, I=96, J=13),                                          # wide
-         'gt': dict(M=3, L=9, I=4, J=40)}                                           # tall, longitude_nodes = 2 (M - 1): zonal states only
+         'gt': dict(M=3, L=9, I=4, J=40),
+         'gt300': dict(M=5, L=9, I=8, J=300), 'gt520': dict(M=4, L=9, I=6, J=520)}        # tall: hundreds of latitudes                                           # tall, longitude_nodes = 2 (M - 1): zonal states only
 _nodes_ok = {}
 _cache = {}
 
@@ -735,9 +738,10 @@ def r_pe_solid_body(ctx, a):
     dsc = max(float(np.max(np.abs(to_modal(g, nodal_of(f, xyz))))) for f in M['divergence']) + 1e-300
     ctx.count('pe_solid_body:%s K=%d %s' % (kind, K, a['mode']))
     # the spec itself is balanced (sanity of the analytic family; proved in Coq as C05_solid_body_steady)
+    wc = (1 - z * z >= 0.02)      # the plugin's own polynomial evaluation is ill-conditioned next to the poles of tall grids
     ctx.table_obligation('solid-body family satisfies the pointwise balance (spec divergence tendency = 0)',
-                         float(np.max(np.abs(nodal_of(sp['divergence'], xyz)))) <= 1e-9 * (maxabs(M['divergence'], xyz) + 1e-300),
-                         {'residual': float(np.max(np.abs(nodal_of(sp['divergence'], xyz)))), 'scale': maxabs(M['divergence'], xyz)})
+                         float(np.max(np.abs(nodal_of(sp['divergence'], xyz) * wc))) <= 1e-9 * (maxabs(M['divergence'], xyz) + 1e-300),
+                         {'residual': float(np.max(np.abs(nodal_of(sp['divergence'], xyz) * wc))), 'scale': maxabs(M['divergence'], xyz)})
     steady(ctx, f'{kind}: solid-body rotation in gradient-wind balance ({a["mode"]}): divergence tendency = 0', tot['divergence'], dsc)
     steady(ctx, f'{kind}: solid-body rotation ({a["mode"]}): vorticity tendency = 0', tot['vorticity'], dsc)
     adv = float(np.max(np.abs(Uk))) / rad
@@ -825,9 +829,10 @@ def r_sw_balanced(ctx, a):
     tot = sw_total(eq, vort, np.zeros_like(vort), pot)
     dsc = max(float(np.max(np.abs(to_modal(g, nodal_of(f, xyz))))) for f in sp['mags']['divergence']) + 1e-300
     ctx.count('sw_balanced: K=%d deg=%d' % (K, max(len(w) for w in a['w'])))
+    wc = (1 - z * z >= 0.02)      # the plugin's own polynomial evaluation is ill-conditioned next to the poles of tall grids
     ctx.table_obligation('balanced jet family satisfies the pointwise balance (spec divergence tendency = 0)',
-                         float(np.max(np.abs(nodal_of(sp['divergence'], xyz)))) <= 1e-9 * (maxabs(sp['mags']['divergence'], xyz) + 1e-300),
-                         {'residual': float(np.max(np.abs(nodal_of(sp['divergence'], xyz)))), 'scale': maxabs(sp['mags']['divergence'], xyz)})
+                         float(np.max(np.abs(nodal_of(sp['divergence'], xyz) * wc))) <= 1e-9 * (maxabs(sp['mags']['divergence'], xyz) + 1e-300),
+                         {'residual': float(np.max(np.abs(nodal_of(sp['divergence'], xyz) * wc))), 'scale': maxabs(sp['mags']['divergence'], xyz)})
     steady(ctx, 'constructed balanced zonal jet: divergence tendency = 0', tot['divergence'], dsc)
     steady(ctx, 'constructed balanced zonal jet: vorticity tendency = 0', tot['vorticity'], dsc)
     umax = maxabs(F['U'], xyz)
@@ -1039,6 +1044,29 @@ def r_pe_forms(ctx, a):
         q = np.array(q, dtype=np.float64); q.setflags(write=False); return q
     Aro = jax.tree_util.tree_map(ro, A)
     _leaves_equal(ctx, f'{kind}: read-only numpy inputs', e1, eq.explicit_terms(Aro))
+    # transformation contexts: jit of the whole call, eval_shape, and for the linear implicit operator jvp = operator applied to the
+    # tangent, vjp finite and adjoint-consistent
+    if a.get('jit', True):
+        ej = jax.jit(eq.explicit_terms)(jn(A)) if a.get('jit', 'both') == 'both' else e1; ij = jax.jit(eq.implicit_terms)(jn(A))
+        for n in ('vorticity', 'divergence', 'temperature_variation', 'log_surface_pressure'):
+            ctx.oracle_close(f'{kind}: jax.jit(explicit_terms) = eager ({n})', np.asarray(getattr(ej, n)), np.asarray(getattr(e1, n)),
+                             scale=float(np.max(np.abs(np.asarray(getattr(e1, n))))) + 1e-300, tol_rel=1e-12)
+            ctx.oracle_close(f'{kind}: jax.jit(implicit_terms) = eager ({n})', np.asarray(getattr(ij, n)), np.asarray(getattr(i1, n)),
+                             scale=float(np.max(np.abs(np.asarray(getattr(i1, n))))) + 1e-300, tol_rel=1e-12)
+    shp = jax.eval_shape(eq.explicit_terms, jn(A))
+    ctx.exact(f'{kind}: eval_shape(explicit_terms) has the shapes of the eager result',
+              [list(t.shape) for t in dyn.tree_leaves(shp)], [list(np.shape(t)) for t in dyn.tree_leaves(e1)])
+    Aj = jn(A); Bj = jn(B)
+    pim, tim = jax.jvp(eq.implicit_terms, (Aj,), (Bj,))
+    iB = eq.implicit_terms(jn(B))
+    for n in ('divergence', 'temperature_variation', 'log_surface_pressure'):
+        ctx.oracle_close(f'{kind}: implicit_terms is linear: jvp = operator applied to the tangent ({n})', np.asarray(getattr(tim, n)), np.asarray(getattr(iB, n)),
+                         scale=float(np.max(np.abs(np.asarray(getattr(iB, n))))) + 1e-300, tol_rel=1e-12)
+    _, vjp = jax.vjp(eq.implicit_terms, Aj)
+    (ct,) = vjp(iB)
+    ctx.oracle(f'{kind}: reverse mode of implicit_terms is finite', dyn.tree_all_finite(ct))
+    lhs = dyn.tree_vdot(tim, iB); rhs = dyn.tree_vdot(Bj, ct)
+    ctx.oracle(f'{kind}: implicit_terms <J v, w> = <v, J^T w>', abs(lhs - rhs) <= 1e-10 * (abs(lhs) + abs(rhs) + 1e-300), {'lhs': lhs, 'rhs': rhs})
     # float32 copies of exactly representable coefficients: every float64 result must be reproduced to float32 accuracy at least,
     # and exactly where the computation is carried out in float64 (checked on the unchanged tree: the transforms promote)
     A32 = jax.tree_util.tree_map(lambda q: jnp.asarray(np.asarray(q, dtype=np.float32)) if np.ndim(q) else q, A)
@@ -1081,7 +1109,7 @@ def r_linear_top(ctx, a):
                 if l < L - 1: want['divergence'][:, mi, li] = -eig * specs.g * col[0]     # the explicit orographic term is clipped at L-1
             else:
                 d = col * 0.01; div[:, mi, li] = d
-                cum = np.cumsum(d * th); sdD = np.asarray(b)[1:K] * cum[-1] - cum[:K - 1]
+                cum = np.cumsum(d * th); sdD = np.cumsum(th)[:K - 1] * cum[-1] - cum[:K - 1]
                 gp = (al * cum + np.concatenate([[0.0], (al * cum)[:-1]])) / th
                 want['temperature_variation'][:, mi, li] = centered_np(sdD, tref, cen) - specs.kappa * tref * gp
                 want['log_surface_pressure'][0, mi, li] = -cum[-1]
@@ -1128,6 +1156,20 @@ def generate(ctx):
     rng = ctx.rng; quick = ctx.tier == 'quick'
     lev = lambda K: util.uneven_boundaries(rng, K, 4).tolist()
     prof = lambda K: (250.0 + rng.integers(-120, 121, size=K) / 4.0).tolist()
+    prof_nd = lambda K: (250.1 + rng.integers(-300, 301, size=K) / 7.0).tolist()                      # non-dyadic temperatures
+    def lev_special(K, how):
+        """accepted level sets near the guards: nearly equidistant, ends only close to 0 / 1, a very thin layer"""
+        k = np.arange(K + 1, dtype=np.float64)
+        if how == 'round7': b = np.round(k / K, 7)
+        elif how == 'jitter22': b = k / K + np.where((k > 0) & (k < K), (-1.0) ** k * 2.0 ** -22, 0.0)
+        elif how == 'f32acc': b = np.cumsum(np.concatenate([[np.float32(0)], np.full(K, np.float32(1.0 / K))]), dtype=np.float32).astype(np.float64); b[-1] = min(b[-1], 1.000001)
+        elif how == 'top8e-9': b = np.asarray(lev(K)); b[0] = 8e-9
+        elif how == 'bot1+1e-7': b = np.asarray(lev(K)); b[-1] = 1.0000001
+        elif how == 'bot1-2e-6': b = np.asarray(lev(K)); b[-1] = 0.999998
+        elif how == 'thin30':
+            b = np.asarray(lev(K)); j = max(1, K // 2); b[j] = b[j - 1] + 2.0 ** -30 if K > 1 else b[j]
+        else: raise ValueError(how)
+        return [float(t) for t in b]
     amp = dict(psi=0.05, chi=0.01, T=2.0, lnps=0.05, oro=0.05)
     # Oracle A
     plan = [('dry', 3, 'g9'), ('moist', 3, 'g9'), ('cloud', 2, 'g9'), ('dry', 1, 'g9')]
@@ -1170,8 +1212,45 @@ def generate(ctx):
         args = dict(kind=kind, consts=consts, radius=rad, b=lev(K), grid=gname, tref=tr, degree=2, polys=_pe_polys(rng, K, kind, 2, amp))
         args.update({k: v for k, v in extra.items() if k != 'omega0'})
         yield 'pe_pointwise', args
+    # fourth-wave classes: near-coincident level sets and reference profiles, thin layers, scaled radii, non-dyadic constants
+    wplan = [('dry', 3, 'round7', {}), ('dry', 3, 'top8e-9', {}), ('moist', 3, 'bot1+1e-7', dict(matmul='sparse')),
+             ('dry', 3, 'thin30', {}), ('dry', 3, 'near_tref', {}), ('moist', 2, 'radius', dict(rad=2.0 ** -20))]
+    if not quick:
+        wplan += [('moist', 4, 'jitter22', {}), ('dry', 2, 'radius', dict(rad=2.0 ** 20))]
+        wplan += [(k, K, h, e) for k in ('time', 'cloud') for (K, h, e) in ((4, 'round7', dict(vadv='upwind')), (3, 'f32acc', {}), (3, 'bot1-2e-6', {}), (4, 'thin30', dict(matmul='sparse')),
+                                                                             (3, 'top8e-9', dict(vadv='upwind', matmul='sparse')), (3, 'near_tref', dict(vadv='upwind')), (5, 'jitter22', dict(matmul='sparse')))]
+    for r, (kind, K, how, extra) in enumerate(wplan):
+        consts, rad = _consts(rng, 1)                                  # always the non-dyadic random constants
+        bb = lev(K) if how in ('near_tref', 'radius') else lev_special(K, how)
+        tr = prof_nd(K)
+        if how == 'near_tref': tr = [tr[0] * (1 + j * [1e-12, 1e-7, 3e-9][j % 3]) for j in range(K)]     # nearly equal, not equal
+        if how == 'radius': consts = list(consts); consts[0] = extra['rad']; rad = extra['rad']
+        args = dict(kind=kind, consts=consts, radius=rad, b=bb, grid='g9', tref=tr, degree=2, polys=_pe_polys(rng, K, kind, 2, amp))
+        args.update({k: v for k, v in extra.items() if k != 'rad'})
+        yield 'pe_pointwise', args
+    for r, (kind, K, how) in enumerate([('moist', 3, 'top8e-9'), ('dry', 130, 'jitter22')] if quick else
+                                       [('dry', 3, 'round7'), ('moist', 3, 'top8e-9'), ('dry', 130, 'jitter22'), ('cloud', 4, 'bot1+1e-7'), ('moist', 3, 'thin30'), ('time', 260, 'f32acc')]):
+        consts, rad = _consts(rng, 1)
+        yield 'pe_rest', dict(kind=kind, consts=consts, radius=rad, b=lev_special(K, how), grid='g9', seed=int(rng.integers(1 << 30)), oro_amp=0.02,
+                              T0=250.1 + float(rng.integers(0, 300)) / 7, q0=float(rng.integers(0, 30)) / 1000, c=float(rng.integers(-40, 120)) / 7, tref=None)
+    for r, (kind, K, how) in enumerate([('dry', 130, 'jitter22')] if quick else
+                                       [('dry', 130, 'jitter22'), ('moist', 3, 'thin30'), ('dry', 4, 'top8e-9'), ('time', 520, 'round7')]):
+        consts, rad = _consts(rng, 1)
+        yield 'linear_top', dict(kind=kind, consts=consts, radius=rad, grid='g9', b=lev_special(K, how), tref=prof_nd(K), m=int(rng.integers(0, 4)), pick=int(rng.integers(0, 4)),
+                                 col=(rng.integers(1, 17, size=K) / 7.0).tolist(), sw_dens=None, sw_ref=None)
+    # tall grids (hundreds of latitudes, minimal longitudes) for the zonal balanced families
+    for r, (gname, kind) in enumerate([('gt300', 'moist')] if quick else [('gt300', 'moist'), ('gt520', 'dry'), ('gt300', 'cloud')]):
+        consts, rad = _consts(rng, 1); K = 3
+        sp = specs_of(consts); U = (rng.integers(-24, 25, size=K) / 100.0).tolist()
+        need = -(np.asarray(U) ** 2 / 2 + (rad or 1.0) * sp.angular_velocity * np.asarray(U))
+        yield 'pe_solid_body', dict(kind=kind, consts=consts, radius=rad, b=lev(K), grid=gname, U=U, Tbar=prof_nd(K), tref=prof_nd(K), mode='general',
+                                    beta=0.0, gamma=float(np.mean(need)) / sp.g * 1.1, c=float(rng.integers(-16, 90)) / 7, q0=float(rng.integers(0, 30)) / 1000)
+        if quick: continue
+        yield 'sw_states', dict(fn='multi_layer', grid=gname, dens=[1.0, 1.3], ref=[0.7, 0.9], w=[(rng.integers(-16, 17, size=3) / 60.0).tolist() for _ in range(2)])
+        yield 'sw_balanced', dict(grid=gname, radius=1.3, omega=0.7, dens=[1.0, 1.3], ref=[0.7, 0.9], w=[(rng.integers(-16, 17, size=3) / 60.0).tolist() for _ in range(2)],
+                                  oro=(rng.integers(-8, 9, size=3) / 60.0).tolist())
     for kind in (['dry'] if quick else ['dry', 'time', 'moist', 'cloud']):
-        yield 'pe_forms', dict(kind=kind, b=lev(3), tref=[float(t) for t in rng.integers(220, 300, size=3)], seed=int(rng.integers(1 << 30)))
+        yield 'pe_forms', dict(kind=kind, jit='implicit' if quick else 'both', b=lev(3), tref=[float(t) for t in rng.integers(220, 300, size=3)], seed=int(rng.integers(1 << 30)))
     for r, (kind, gname) in enumerate([('dry', 'g9')] if quick else [('dry', 'g9'), ('moist', 'g9'), ('time', 'g9f'), ('cloud', 'g9p'), ('dry', 'gm6')]):
         consts, rad = _consts(rng, r + 1)
         yield 'linear_top', dict(kind=kind, consts=consts, radius=rad, grid=gname, b=lev(3), tref=prof(3), m=int(rng.integers(0, 4)), pick=int(rng.integers(0, 4)),
